@@ -423,6 +423,45 @@ def run_sources(pipes, sched):
     return {'chunks': chunks, 'raised': raised}
 
 
+def run_feedback(term, items, fb_after, fb_item, plain=False):
+    """A subscriber that reacts to the `fb_after`-th output by pushing `fb_item` into the source at once (a feedback loop through a
+    Subject: the push happens inside the on_next of the output).  Every output is attributed to the innermost push in progress."""
+    b = Builder(mux=not plain)
+    ops = b.pipe(term)
+    src = Subject()
+    obs = src.pipe(*ops) if plain else src.pipe(rs.state.with_memory_store(pipeline=ops))
+    active = []            # ids of the pushes in progress, innermost last
+    outs = []              # [value, id of the innermost push in progress or None]
+    pushes = []
+    state = {'fired': False}
+    raised = None
+
+    def push(v):
+        pid = len(pushes)
+        pushes.append(v)
+        active.append(pid)
+        try:
+            src.on_next(dec(v))
+        finally:
+            active.pop()
+
+    def on_next(x):
+        outs.append([enc(x), active[-1] if active else None])
+        if not state['fired'] and len(outs) == fb_after + 1:
+            state['fired'] = True
+            push(fb_item)
+
+    errs = []
+    obs.subscribe(on_next=on_next, on_error=lambda e: errs.append(type(e).__name__))
+    try:
+        for it in items:
+            push(it)
+        src.on_completed()
+    except Exception as e:
+        raised = type(e).__name__
+    return {'outs': outs, 'pushes': pushes, 'errors': errs, 'raised': raised, 'chunks': []}
+
+
 def run_plain_tramp(term, items):
     """the same operators on an ordinary observable whose source pushes ALL items from inside one action of the current-thread
     scheduler (`rx.from_`, as every file reader of rxsci does): chunks [subscription, item 0.., completion] cut by a tap placed
